@@ -1,5 +1,5 @@
 (* C16 property theorems.  Only statements closed by [exact]; each followed by Print Assumptions. *)
-From Miller Require Import Base.Record C16.Model C16.CivilProofs C16.TextProofs C16.Proofs C16.Verb C16.VerbProofs gen.Gen_Zones.
+From Miller Require Import Base.Record C16.Model C16.CivilProofs C16.TextProofs C16.Proofs C16.GmtProofs C16.DhmsProofs C16.ZoneProofs C16.Verb C16.VerbProofs gen.Gen_Zones.
 Open Scope Z_scope.
 
 (* calendar inverses, ALL integers / all valid dates of all years (proleptic Gregorian) *)
@@ -63,42 +63,69 @@ Theorem C16_sec2gmt_verb_bystanders :
 Proof. exact sec2gmt_verb_bystander. Qed.
 Print Assumptions C16_sec2gmt_verb_bystanders.
 
-(* gmt2sec (sec2gmt n) = n is FALSE of the code as it is: strptime goes through t.UnixNano(), which wraps outside
-   1677..2262 (finding strptime-unixnano-overflow).  Witness: year 1. *)
-Theorem C16_gmt2sec_sec2gmt_refuted :
-  exists n, -62135596800 <= n <= 253402300799 /\ gmt2nsec (sec2gmt_int n 0) <> POk (n * 1000000000).
-Proof. exact gmt2sec_refuted. Qed.
-Print Assumptions C16_gmt2sec_sec2gmt_refuted.
+(* gmt2sec (sec2gmt n) = n for EVERY instant of the years 1..9999: the text printed by goTimeToFormattedTime is parsed
+   back by the strptime model (pbnjay parts loop + time.Parse field rules) to exactly the instant n.
+   gmt2sec_exact is t.Unix() of the parsed time; the final conversion float64(t.Unix()) + float64(0)/1e9 is exact for
+   |n| < 2^53 (modelled on SpecFloat, tied by correspondence and by the computed instances below). *)
+Theorem C16_strptime_of_sec2gmt :
+  forall n, LO <= n <= HI -> strp_exact (sec2gmt_int n 0) ISO_FMT = POk (n * 1000000000).
+Proof. exact strp_exact_sec2gmt. Qed.
+Print Assumptions C16_strptime_of_sec2gmt.
 
-(* PARTIAL: without the int64 wrap the parser recovers the instant -- established here only for a list of boundary
-   instants by computation (tests, not a theorem over all n; the general proof over the text is not done) *)
-Theorem C16_gmt2sec_sec2gmt_instances_partial :
-  forallb gmt_roundtrip_ok (boundary_instants ++ [-62135596800; 253402300799; -62135596799; 253402300798]) = true.
-Proof. exact gmt_roundtrip_instances. Qed.
-Print Assumptions C16_gmt2sec_sec2gmt_instances_partial.
+Theorem C16_gmt2sec_sec2gmt : forall n, LO <= n <= HI -> gmt2sec_exact (sec2gmt_int n 0) = Some n.
+Proof. exact gmt2sec_exact_sec2gmt. Qed.
+Print Assumptions C16_gmt2sec_sec2gmt.
 
-(* d/h/m/s inverses: refuted at exactly -2^63 (finding dhms-roundtrip-minint64) *)
+(* gmt2nsec returns int64 nanoseconds: exact whenever n * 10^9 fits in int64 (1677-09-21 .. 2262-04-11) *)
+Theorem C16_gmt2nsec_sec2gmt :
+  forall n, LO <= n <= HI -> MIN64 <= n * 1000000000 <= MAX64 -> gmt2nsec (sec2gmt_int n 0) = POk (n * 1000000000).
+Proof. exact gmt2nsec_sec2gmt. Qed.
+Print Assumptions C16_gmt2nsec_sec2gmt.
+
+(* PARTIAL (computed instances, tests): the binary64 value gmt2sec returns is float64(n) *)
+Theorem C16_gmt2sec_float_instances_partial :
+  forallb gmt_float_ok (boundary_instants ++ [-62135596800; 253402300799; -62135596799; 253402300798]) = true.
+Proof. exact gmt_float_instances. Qed.
+Print Assumptions C16_gmt2sec_float_instances_partial.
+
+(* d/h/m/s inverses: for every int64 except -2^63 ... *)
+Theorem C16_dhms2sec_sec2dhms : forall n, MIN64 < n <= MAX64 -> dhms2sec (sec2dhms n) = Some n.
+Proof. exact dhms_roundtrip. Qed.
+Print Assumptions C16_dhms2sec_sec2dhms.
+
+Theorem C16_hms2sec_sec2hms : forall n, MIN64 < n <= MAX64 -> hms2sec (sec2hms n) = Some n.
+Proof. exact hms_roundtrip. Qed.
+Print Assumptions C16_hms2sec_sec2hms.
+
+(* ... and refuted at exactly -2^63 (known finding dhms-roundtrip-minint64) *)
 Theorem C16_dhms_roundtrip_refuted_at_minint64 :
   exists n, in64 n = true /\ dhms2sec (sec2dhms n) <> Some n /\ hms2sec (sec2hms n) <> Some n.
 Proof. exact dhms_refuted. Qed.
 Print Assumptions C16_dhms_roundtrip_refuted_at_minint64.
 
-(* PARTIAL: the inverse identities on a list of boundary integers incl. negatives and +-(2^63-1), by computation
-   (tests; the general proof for all int64 other than -2^63 is not done) *)
-Theorem C16_dhms_roundtrip_instances_partial : forallb dhms_ok dhms_ints = true.
-Proof. exact dhms_roundtrip_instances. Qed.
-Print Assumptions C16_dhms_roundtrip_instances_partial.
+(* local time: for ANY well-formed transition table (offsets within 16 h, periods at least 64 h), Go's time.Date zone
+   resolution inverts the wall-clock display at every instant whose wall-clock reading is unambiguous (outside overlaps) *)
+Theorem C16_local_roundtrip :
+  forall z t, wf_ztable z = true -> ALPHA + ZD <= t -> t <= OMEGA - ZD -> unambiguous_at z t ->
+  of_local z (to_local z t) = t.
+Proof. exact of_local_to_local. Qed.
+Print Assumptions C16_local_roundtrip.
 
-(* regenerated zone tables (Go tzdata, window 1900..2037): offsets bounded by 16 h, every period at least 64 h long *)
+(* regenerated zone tables (Go tzdata, window 1900..2037) are well-formed, so the theorem applies to each of them *)
 Theorem C16_gen_zones_wellformed : forallb wf_ztable gen_zones = true.
 Proof. exact gen_zones_wf. Qed.
 Print Assumptions C16_gen_zones_wellformed.
 
-(* PARTIAL: localtime2gmt (gmt2localtime t) = t outside overlaps, checked by computation at every transition of every
-   regenerated zone +- {1 s, 30 min, 1 h, 2 h} (the general theorem for all t is not done) *)
-Theorem C16_zone_roundtrip_near_transitions_partial : forallb zone_roundtrip_ok gen_zones = true.
+Theorem C16_local_roundtrip_gen_zones :
+  forall z t, In z gen_zones -> ALPHA + ZD <= t -> t <= OMEGA - ZD -> unambiguous_at z t -> of_local z (to_local z t) = t.
+Proof. exact (fun z t Hin => of_local_to_local z t (proj1 (forallb_forall _ _) gen_zones_wf z Hin)). Qed.
+Print Assumptions C16_local_roundtrip_gen_zones.
+
+(* computed instances (tests): the round trip at every transition of every regenerated zone +- {1 s .. 2 h}, with the
+   unambiguity condition decided by computation (shows the hypothesis is met right next to transitions) *)
+Theorem C16_zone_roundtrip_near_transitions_instances : forallb zone_roundtrip_ok gen_zones = true.
 Proof. exact gen_zones_roundtrip_near_transitions. Qed.
-Print Assumptions C16_zone_roundtrip_near_transitions_partial.
+Print Assumptions C16_zone_roundtrip_near_transitions_instances.
 
 Example C16_nonvacuous :
   valid_date 2024 2 29 = true /\ valid_date 1900 2 29 = false /\ civil_of_days 0 = (1970, 1, 1)
